@@ -47,7 +47,8 @@ def handle (op : String) (j : Json) : Option (R Json) :=
       let e ← asList asChars (← fld j "expected")
       let gnl ← asBool (fldD j "guide_nl" (Json.bool false))
       let r := checkStrings o pat a e
-      let pl := plan o r gnl
+      let raw ← asChars (fldD j "raw_actual" (ofChars (joinNl a)))
+      let pl := plan o r gnl raw
       pure (Json.mkObj [
         ("failures", ofNat r.failures),
         ("first_error", feJson r.firstError),
